@@ -18,9 +18,10 @@ def sh(cmd, cwd=None, timeout=3600, extra=None):
 os.makedirs("/tmp/mutwork", exist_ok=True)
 sh(f"git -C /repo worktree remove --force {work}")
 shutil.rmtree(work, ignore_errors=True)
-rc, out = sh(f"git -C /repo worktree add -q --detach {work} HEAD")
+base = os.environ.get("MUT_BASE", "HEAD")  # a seeded change written against an older /repo commit can be tried there
+rc, out = sh(f"git -C /repo worktree add -q --detach {work} {base}")
 assert rc == 0, out
-meta = {"name": name, "property": prop, "source": mdir, "repo_head": sh("git -C /repo rev-parse --short HEAD")[1].strip()}
+meta = {"name": name, "property": prop, "source": mdir, "repo_head": sh(f"git -C /repo rev-parse --short {base}")[1].strip()}
 try:
     patch = os.path.join(mdir, "patch.diff")
     rc, out = sh(f"git apply {patch}", cwd=work)
